@@ -170,6 +170,16 @@ def run_case(case):
         except Exception as e:
             r.count("base_call_raised")
             r.sample({"subject": label, "op": opname, "error": repr(e)[:200]})
+            # a batch that fails while each of its rows alone is fine depends on "which other rows are present" as much as a
+            # batch that returns other numbers
+            try:
+                for i in range(B):
+                    run(X[i:i + 1], ctx[i:i + 1] if ctx is not None else None)
+            except Exception:
+                continue
+            r.ev()
+            r.viol("batch_dependence", "%s.%s row results depend on the rest of the batch" % (label, opname), variant="batch raises, every row "
+                   "alone succeeds", exc=repr(e)[:200], exc_type=type(e).__name__, batch=B, **det)
             continue
         if any(t.shape[0] != B for t in base):
             r.viol("shape", "%s.%s result does not have one row per batch item" % (label, opname),
